@@ -98,7 +98,7 @@ PROPS = {
     },
     "C12": {
         "modules": ["contracts.worker_units", "contracts.dispatcher_units", "contracts.c11_ports"],
-        "unit_filter": ["retr_worker@retr", "stor_worker@stor", "stor_worker@appe", "list_worker@list", "mlsd_worker@mlsd", "Server.dispatcher/finally", "Server._start_passive_server", "Server.close"],
+        "unit_filter": ["retr_worker@retr", "stor_worker@stor", "stor_worker@appe", "list_worker@list", "mlsd_worker@mlsd", "Server.dispatcher/finally", "Server._start_passive_server", "Server.close", "Server.response_writer"],
         "level": "proof",
         "trusted_base": [T_PY, T_ENGINE, T_SOLVER, T_AIO, T_CONN, T_IND],
         "assumptions": [
@@ -158,12 +158,12 @@ PROPS = {
             "the reference model is the table contracts/server_units.py:MODEL (reply codes allowed per verb, fields a verb may write) plus the state clauses of c05_exit, written from the property statement and RFC 959/3659",
             "OS errors while binding a passive listener (other than EADDRINUSE) are outside the quantifier (command sequences): PASV/EPSV may then end the session through the dispatcher's except Exception",
         ],
-        "not_decided": ["replies 'in order' across pipelined commands; liveness of the response writer task", "the resulting file tree (needs the backend outcome specification of C18)"],
+        "not_decided": ["replies 'in order': Server.response_writer writes each queued reply once, unchanged, in queue order (per-iteration contract; FIFO of asyncio.Queue is T-aio) — that handlers of pipelined commands *queue* their replies in command order is not decided (PIPE); liveness of the writer task", "the resulting file tree (needs the backend outcome specification of C18)"],
         "explanation": "",
     },
     "C16": {
-        "modules": ["contracts.c16_timeouts", "contracts.dispatcher_units", "contracts.worker_units", "contracts.server_units", "contracts.c15_throttle", "contracts.c01_transfer"],
-        "unit_filter_prefix": ["ThrottleStreamIO.", "StreamIO", "Server.pasv.<locals>", "Server.epsv.<locals>", "Server.dispatcher/set-up", "retr_worker@", "stor_worker@", "list_worker@", "mlsd_worker@", "Server.", "BaseClient.__init__", "BaseClient.connect", "Client.get_stream"],
+        "modules": ["contracts.c16_timeouts", "contracts.dispatcher_units", "contracts.worker_units", "contracts.server_units", "contracts.c15_throttle"],
+        "unit_filter_prefix": ["ThrottleStreamIO.", "StreamIO", "Server.pasv.<locals>", "Server.epsv.<locals>", "Server.dispatcher/set-up", "retr_worker@", "stor_worker@", "list_worker@", "mlsd_worker@", "Server."],
         "level": "proof",
         "trusted_base": [T_PY, T_ENGINE, T_SOLVER, T_AIO, T_CONN],
         "assumptions": [
@@ -231,7 +231,7 @@ PROPS = {
     "C01": {
         "modules": ["contracts.c01_transfer", "contracts.worker_units", "contracts.c15_throttle", "contracts.server_units"],
         "extra": ["contracts.index.c18_rt"],
-        "unit_filter": ["AsyncStreamIterator.__anext__", "retr_worker@retr", "stor_worker@stor", "stor_worker@appe", "ThrottleStreamIO.read", "ThrottleStreamIO.write", "Server.rest#SEQ", "Server.appe#SEQ", "Server.stor#SEQ", "Client.get_stream", "DataConnectionThrottleStreamIO.__aexit__", "Client.upload/copy-loop", "Client.upload/file-branch", "Client.download/file-branch"],
+        "unit_filter": ["AsyncStreamIterator.__anext__", "retr_worker@retr", "stor_worker@stor", "stor_worker@appe", "ThrottleStreamIO.read", "ThrottleStreamIO.write", "Server.rest#SEQ", "Server.appe#SEQ", "Server.stor#SEQ", "Client.get_stream", "DataConnectionThrottleStreamIO.__aexit__", "Client.upload/copy-loop", "Client.upload/file-branch", "Client.download/file-branch", "Client.get_passive_connection"],
         "level": "proof",
         "trusted_base": [T_PY, T_ENGINE, T_SOLVER, T_AIO, T_CONN, "abstract backend file (assumed contract): sequential access after an optional seek; 'wb' truncates, 'ab' appends whatever was seeked, 'r+b' keeps the content; a write at position p pads with zeros beyond the end (pyvc/backend.py:FileHandle)"],
         "assumptions": [
@@ -241,7 +241,7 @@ PROPS = {
         "not_decided": [
             "kernel/TCP delivering what was written (T-aio)",
             "'every later download, stat or listing reflects the new content' beyond 'file and data stream closed before the completion reply' (backend visibility)",
-            "Client.get_passive_connection (TYPE, then EPSV/PASV with fallback) is used through an assumed summary",
+            "parse_epsv_response / parse_pasv_response are used through stand-ins in Client.get_passive_connection's unit (their exception sets are C19 units; that they decode what the server's PASV/EPSV handlers encode is not a stated obligation)",
             "that MemoryPathIO / Python file objects satisfy the abstract file contract (see C18)",
         ],
         "explanation": "",
@@ -273,7 +273,7 @@ PROPS = {
         "explanation": "",
     },
     "C06": {
-        "modules": ["contracts.c06_framing"],
+        "modules": ["contracts.c06_framing", "contracts.dispatcher_units"],
         "extra": ["contracts.index.xcheck"],
         "level": "proof",
         "trusted_base": [T_PY, T_ENGINE, T_SOLVER, T_AIO, "T-str: axiom schemas for rstrip / isdigit (uninterpreted functions constrained by consequences of the CPython semantics; DESIGN.md 2.9, 2.12)", "T-enc: encode/decode inverse and stateless"],
